@@ -62,6 +62,12 @@ Proof.
   apply app_nil_r.
 Qed.
 
+Lemma overwrite_nil : forall v, overwrite [] 0 v = v.
+Proof.
+  intros v. change (@nil N) with (@nil N ++ @nil N) at 1. change 0 with (@length N []).
+  rewrite overwrite_app. cbn [app]. rewrite skipn_nil. apply app_nil_r.
+Qed.
+
 Section Emu.
 Variable tc : tcfg.
 
@@ -91,6 +97,21 @@ Proof.
     split; [reflexivity|]. split; [cbn [length]; lia|]. split; [reflexivity|]. split; [reflexivity|].
     intros l. rewrite H5. rewrite !nth_upd. rewrite Nat.eqb_refl.
     destruct (Nat.eqb l (crow s)); reflexivity.
+Qed.
+
+Lemma prints_len : forall v s, ccol s + length v <= width tc ->
+  length (rows (fold_left (print tc) v s)) <= Nat.max (length (rows s)) (S (crow s)).
+Proof.
+  induction v as [|x v IH]; intros s Hw; cbn [fold_left].
+  - lia.
+  - cbn [length] in Hw.
+    assert (Hlt : (ccol s <? width tc) = true) by (apply Nat.ltb_lt; lia).
+    assert (Hp : print tc s x =
+                 mkscr (upd [] (rows s) (crow s) (fun row => put row (ccol s) x)) (crow s) (S (ccol s)) (cvis s) (hides s))
+      by (unfold print; rewrite Hlt; reflexivity).
+    rewrite Hp. clear Hp. set (s1 := mkscr _ _ _ _ _).
+    pose proof (IH s1) as H. subst s1. cbn [rows crow ccol] in H.
+    rewrite length_upd in H. lia.
 Qed.
 
 Lemma erase0_ext : forall s l,
